@@ -610,6 +610,8 @@ def queue_call(I, fv, args, kw):
     o = I.hobj(fv.self_val)
     name = fv.name.split(".")[-1]
     from . import symlist
+    if name in ("put_nowait", "get_nowait", "get"):
+        I.log_write(("cont", fv.self_val.ref))
     if name == "put_nowait":
         symlist.method(I, o.meta["items"], I.hobj(o.meta["items"]), "append", [args[0]], {})
         I.path.ghost.setdefault("events", {}).setdefault("queued", []).append(args[0])
